@@ -253,6 +253,7 @@ func (c *wsConn) GetResource(rid string, cb func(data *rpc.Resources, err error)
 			err := sub.Error()
 			if err != nil {
 				cb(nil, err)
+				c.Unsubscribe(sub, true, false, 1, true)
 				return
 			}
 
